@@ -177,6 +177,8 @@ def oracle_logp(kind, state):
         return sum(normal(v) for v in state['x'])
     if kind == 'gamma':
         r = state['r'][0]
+        if r <= 0:
+            return -math.inf
         return (2.0 * math.log(1.5) + (2.0 - 1) * math.log(r) - 1.5 * r - math.lgamma(2.0)) + normal(state['x'][0])
     if kind == 'cat':
         return normal(state['p'][0]) + normal(state['q'][0])
@@ -188,6 +190,8 @@ def oracle_logp(kind, state):
 
 
 def dirichlet_logpdf(x, alpha):
+    if min(x) <= 0 or min(alpha) <= 0:
+        return -math.inf
     return math.lgamma(sum(alpha)) - sum(math.lgamma(a) for a in alpha) + sum((a - 1) * math.log(v) for a, v in zip(alpha, x))
 
 
@@ -400,8 +404,12 @@ def execute(spec, vals, sym, hooks=None):
             ev['u'] = st.u.get(it)
         rec['rows'] = [[scalar_of(c, sym) for c in row] for row in container]
         fn = os.path.join(tmp, 'samples.csv')
+        if loggers and loggers[0].f is not None and not loggers[0].f.closed:
+            loggers[0].f.close()  # (the run was aborted before MCMC.run closed its loggers)
         if os.path.exists(fn):
-            rec['file_rows'] = parse_log(open(fn).read(), sym)
+            with open(fn) as fh:
+                text = fh.read()
+            rec['file_rows'] = parse_log(text, sym) if text.strip() else None
         rec['stub_error'] = st.bad
         rec['leaf_order'] = [n for n in leaves]
     finally:
@@ -793,11 +801,40 @@ def build_goals(run, spec):
     return goals
 
 
-def well_defined(run):
-    """denominators / log arguments of the REAL run (snapshot taken before the oracle added its own nodes)"""
+def approx_true(d, c, tol=1e-9):
+    """truth of a boolean node at the DAG's witness values, equalities / inequalities up to rounding"""
+    op, a = d.ops[c], d.args[c]
+    if op == 'bconst':
+        return bool(a[0])
+    if op == 'not':
+        inner = a[0]
+        if d.ops[inner] in ('eq', 'lt', 'le'):
+            return not d.vals[inner]
+        return not approx_true(d, inner, tol)
+    if op == 'and':
+        return all(approx_true(d, x, tol) for x in a)
+    if op == 'or':
+        return any(approx_true(d, x, tol) for x in a)
+    x, y = d.vals[a[0]], d.vals[a[1]]
+    if isinstance(x, float) and isinstance(y, float) and (math.isnan(x) or math.isnan(y)):
+        return False
+    scale = tol * max(1.0, abs(x), abs(y))
+    if op == 'eq':
+        return abs(x - y) <= abs(scale)
+    if op == 'le':
+        return x <= y + scale
+    if op == 'lt':
+        return x < y + scale
+    raise KeyError(op)
+
+
+def well_defined(run, strict=True):
+    """denominators / log arguments of the REAL run (snapshot taken before the oracle added its own nodes).
+    strict=False admits log arguments that are exactly 0 (a proposal landing exactly on the boundary of the
+    support: the real code computes log(0) = -inf and its non-finite guard rejects; probability zero)."""
     d = run.d
     obl = [d.not_(d.eq(b, 0)) for b in run.dens]
-    obl += [d.lt(0, x) if k == 'pos' else d.le(0, x) for k, x in run.doms]
+    obl += [d.lt(0, x) if (k == 'pos' and strict) else d.le(0, x) for k, x in run.doms]
     return obl
 
 
@@ -996,8 +1033,9 @@ def chain_task(task, tr):
             wd = well_defined(run)
         if wd:
             allok = d.and_(*wd)
+            weak = d.and_(*well_defined(run, strict=False))
             goals.append({'label': 'every denominator is non-zero and every log / lgamma argument is positive', 'node': allok,
-                          'sig': 'well-defined', 'hyps': 'full', 'extra': ground_axioms(d, [allok]), 'key': None})
+                          'sig': 'well-defined', 'hyps': 'full', 'extra': ground_axioms(d, [allok]), 'key': None, 'alt': weak})
         full = run.dom + run.pcs
         varids = list(run.V.values())
         if len(tr.samples) < 3:
@@ -1012,14 +1050,20 @@ def chain_task(task, tr):
                 if ck in proved_abs:
                     continue
                 hy = list(g['hyps'])
-                # the generalised statement must not be vacuous: its hypotheses are satisfiable
-                st0, _, _ = prove(d, hy, d.FALSE, timeout=20, tr=tr, label='hypotheses consistent')
-                if st0 == 'proved':
-                    tr.inconc(f'{label}: hypotheses of "{g["label"]}" are inconsistent (harness error)')
+                # the generalised statement must not be vacuous: its hypotheses hold (up to rounding) at the witness
+                bad = [h for h in hy if not approx_true(d, h)]
+                if bad:
+                    tr.inconc(f'{label}: hypotheses of "{g["label"]}" do not hold at the witness (harness error): {d.to_str(bad[0], 5)}')
                     continue
             else:
                 hy = full + list(g['extra'])
             st, r, _ = prove(d, hy, node, timeout=30, get_values=varids, tr=tr, label=g['label'])
+            if st != 'proved' and g.get('alt') is not None:
+                st2, _, _ = prove(d, hy, g['alt'], timeout=30, tr=tr, label=g['label'] + ' (or exactly zero)')
+                if st2 == 'proved':
+                    st = 'proved'
+                    tr.assumptions.add('a log argument that is exactly 0 (proposal exactly on the boundary of the support, probability '
+                                       'zero) is not modelled: the real code gets -inf there and its non-finite guard rejects')
             if st == 'proved':
                 if g['key'] == 'abs':
                     proved_abs[ck] = True
@@ -1149,6 +1193,13 @@ def replay_chain(spec, vals, focus=None, hooks=None):
             return True, (f'iteration {it + 1}: {OPCLS[okind]} reports Hastings term {ev["h"]!r}; log q(x|x\') - log q(x\'|x) of the '
                           f'executed move is {h!r}')
         lp1 = oracle_logp(kind, prop)
+        if lp1 == -math.inf:
+            if ev['accepted']:
+                return True, f'iteration {it + 1}: a proposal with zero target density was accepted'
+            if any(ev['post'][n] != state[n] for n in state):
+                return True, f'iteration {it + 1}: after reject() the parameters are {ev["post"]}, expected bit-identical {state}'
+            expected_rows.append(state)
+            continue
         if ev['joint'] is not None and isinstance(ev['joint'][0], float) and not close(ev['joint'][0], lp1):
             return True, f'iteration {it + 1}: density used for the proposal {ev["joint"][0]!r}, target at the proposed state {lp1!r}'
         A = min(1.0, math.exp(min(50.0, lp1 - logp + h)))
@@ -1386,7 +1437,7 @@ def tune_task(task, tr):
         tr.sample({'case': label, 'new_tuning_parameter': d.to_str(p1, 7), 'goals': [g[1] for g in goals]})
         tr.bounds['tune'] = 'one tune()/learn() call from a symbolic tuning parameter and acceptance probability; adapt_count in {0, 3, symbolic >= 0}'
         varids = list(V.values())
-        st0, _, _ = prove(d, dom + pcs + hy + ax, d.FALSE, timeout=20, tr=tr, label='hypotheses consistent')
+        st0, _, _ = prove(d, dom + pcs + hy + ax, d.FALSE, timeout=8, tr=tr, label='hypotheses consistent')
         if st0 == 'proved':
             tr.inconc(f'{label}: domain, path conditions and axiom instances are inconsistent (harness error)')
             return
